@@ -7,7 +7,7 @@ EXTENDS Integers, Sequences, FiniteSets, TLC
 CONSTANTS Browsers, MaxAge   \* MaxAge: ticks a state value stays valid (two minutes)
 
 \* what the identity provider does for one login attempt
-Logins == {"ok", "refuse", "noidtoken", "badsig", "wrongiss", "wrongaud", "expired", "nousername"}
+Logins == {"ok", "refuse", "noidtoken", "badsig", "wrongiss", "wrongaud", "expired", "expired-just", "nousername"}
 LoginVerifies(lg) == lg = "ok"
 
 VARIABLES sess,    \* browser -> [cookie: "none" | "own" | "tampered" | "foreign", authed, user]
